@@ -287,6 +287,32 @@ def run(ctx):
                     ctx.violation({"op": "hmax", "via": how, "time_axis": "non-uniform"},
                                   "hmax via %s on a non-uniform time axis (mean step 5400 s): expected %.12g = sqrt(ln(N)/2) hs with N = round(5400 / Tm02), "
                                   "library returned %.12g" % (how, exp, got), {"F": v["F"], "D": v["D"], "E": v["E"], "steps_s": np.diff(t).tolist()})
+    # ---- a series of ONE record has no time step (Stats!HmaxSeries): a length-1 time dimension left by a selection, a scalar time
+    # coordinate, a time dimension without a coordinate - hmax is 1.86 hs there
+    for (F, D), vs in list(groups.items()):
+        sub = vs[: (6 if ctx.quick else 60)]
+        if len(sub) < 3:
+            continue
+        stamps = np.datetime64("2020-01-01T00:00:00") + (np.arange(len(sub)) * 5400).astype("timedelta64[s]")
+        batch = L.build_batch(list(F), list(D), [v["E"] for v in sub], dim="time").assign_coords(time=stamps)
+        for i, v in enumerate(sub):
+            variants = {"time dimension of length one": batch.isel(time=[i]), "scalar time coordinate": batch.isel(time=i),
+                        "time dimension without a coordinate": batch.isel(time=[i]).drop_vars("time")}
+            for name, obj in variants.items():
+                for how, acc in (("DataArray", obj.spec), ("Dataset", obj.to_dataset(name="efth").spec)):
+                    ctx.case(("hmax_one_record", name, how, sc.fp_of(v)), True)
+                    try:
+                        got = float(np.asarray(acc.hmax().values, dtype=float).ravel()[0])
+                    except Exception as ex:  # noqa
+                        ctx.violation({"op": "hmax", "via": how, "time_axis": name, "raised": type(ex).__name__}, "hmax via %s raised %s with a %s" % (how, type(ex).__name__, name))
+                        continue
+                    exp = L.ev(v["hmax"])
+                    if L.close(exp, got, rel=1e-9, abs_=1e-9):
+                        ctx.replayed()
+                    else:
+                        ctx.violation({"op": "hmax", "via": how, "time_axis": name},
+                                      "hmax via %s of a one-record series (%s): expected 1.86 hs = %.12g, library returned %.12g" % (how, name, exp, got),
+                                      {"F": v["F"], "D": v["D"], "E": v["E"]})
     # ---- the drift components for any reference angle theta follow from the two default ones (checked above against the
     # defining integrals): uss_x(theta) = A sin(theta) + B cos(theta), uss_y(theta) = B sin(theta) - A cos(theta) with
     # A = uss_x(90), B = uss_y(90); the same for the directional moments momd(1, theta)
